@@ -23,6 +23,10 @@ type params struct {
 	Start uint64
 	Pct   uint
 	Noise bool
+	// Sweep: long epochs (threshold arithmetic). Instead of every subset of blocks, every epoch gets one of
+	// five arrival patterns around the first qualifying block T of the epoch (choice point per epoch).
+	Sweep  bool
+	Epochs int
 }
 
 type fakeBlocks struct {
@@ -70,13 +74,76 @@ func units(tier string) []mc.Unit {
 					if noise && l > 4 {
 						continue
 					}
-					p := params{l, s, pct, noise}
+					p := params{Len: l, Start: s, Pct: pct, Noise: noise}
 					us = append(us, mc.Unit{Name: fmt.Sprintf("len=%d,start=%d,pct=%d,noise=%v", l, s, pct, noise), Params: p})
 				}
 			}
 		}
 	}
+	// threshold-arithmetic sweep over long epochs: every length in a contiguous range plus common large ones,
+	// every percentage, patterns of arrivals around the exact threshold block
+	lens, epochs := []uint64{}, 2
+	top := uint64(60)
+	if tier == "thorough" {
+		top, epochs = 256, 3
+	}
+	for l := maxLen + 1; l <= top; l++ {
+		lens = append(lens, l)
+	}
+	lens = append(lens, 100, 128, 300, 360, 720, 1000, 7200)
+	for _, l := range lens {
+		if l <= top && l > maxLen && (l == 100 || l == 128) {
+			continue
+		}
+		for pct := uint(0); pct < 100; pct++ {
+			p := params{Len: l, Start: 7, Pct: pct, Sweep: true, Epochs: epochs}
+			us = append(us, mc.Unit{Name: fmt.Sprintf("sweep:len=%d,start=7,pct=%d", l, pct), Params: p})
+		}
+	}
 	return us
+}
+
+// firstQualifying is the offset (within an epoch) of the first block that qualifies.
+func firstQualifying(p params) uint64 {
+	for off := uint64(0); off < p.Len; off++ {
+		if qualifies(p, p.Start+off+p.Len) { // any epoch: qualification depends on the offset only
+			return off
+		}
+	}
+	return p.Len - 1
+}
+
+// sweepBlocks: the blocks fed in sweep mode, chosen per epoch.
+func sweepBlocks(c *mc.Ctx, p params) []uint64 {
+	t := firstQualifying(p)
+	var out []uint64
+	for e := 0; e < p.Epochs; e++ {
+		base := p.Start + uint64(e)*p.Len
+		add := func(off uint64) {
+			if b := base + off; off < p.Len && b > p.Start && (len(out) == 0 || out[len(out)-1] < b) {
+				out = append(out, b)
+			}
+		}
+		switch c.Choose(5, "epoch-arrival-pattern") {
+		case 0: // every block of the epoch
+			for off := uint64(0); off < p.Len; off++ {
+				add(off)
+			}
+		case 1: // exactly the threshold block
+			add(t)
+		case 2: // the block before and the block after the threshold block
+			if t > 0 {
+				add(t - 1)
+			}
+			add(t + 1)
+		case 3: // only the block before the threshold (the epoch is never announced, unless t = 0)
+			if t > 0 {
+				add(t - 1)
+			}
+		case 4: // no block of this epoch
+		}
+	}
+	return out
 }
 
 // reference: integer arithmetic on the property's own terms.
@@ -120,8 +187,16 @@ func runInBubble(c *mc.Ctx, u mc.Unit) {
 			feed(p.Start - 1) // before the first epoch
 		}
 	}
-	for b := p.Start + 1; b <= p.Start+3*p.Len; b++ {
-		if c.Bool("skip-block") {
+	var candidates []uint64
+	if p.Sweep {
+		candidates = sweepBlocks(c, p)
+	} else {
+		for b := p.Start + 1; b <= p.Start+3*p.Len; b++ {
+			candidates = append(candidates, b)
+		}
+	}
+	for _, b := range candidates {
+		if !p.Sweep && c.Bool("skip-block") {
 			continue
 		}
 		feed(b)
@@ -181,6 +256,7 @@ func main() {
 		Setup: func(string) { kit.Quiet() },
 		Rule: "unit = (epoch length, starting block, percentage, noise); inside a unit every subset of the blocks in " +
 			"(start, start+3*len] is fed in increasing order to the real notifier goroutine (one choice point per block); " +
+			"sweep units (long epochs): per epoch one of 5 arrival patterns around the first qualifying block (all blocks / exactly it / its two neighbours / only its predecessor / none); " +
 			"non-trivial = at least one block fed; distinct = distinct (unit, fed sequence, events) observations",
 		Assumptions: []string{
 			"the starting block itself counts as already seen (the notifier's initial state says so); it is fed as a no-op",
@@ -188,9 +264,11 @@ func main() {
 		},
 		Bounds: func(tier string) map[string]any {
 			if tier == "thorough" {
-				return map[string]any{"epoch_len": "1..5", "start": []int{0, 1, 5}, "pct": "0..99", "blocks": "all subsets of 3 epochs", "noise": "len<=4"}
+				return map[string]any{"epoch_len": "1..5", "start": []int{0, 1, 5}, "pct": "0..99", "blocks": "all subsets of 3 epochs", "noise": "len<=4",
+					"threshold_sweep": "epoch_len 6..256 and {300,360,720,1000,7200}, start 7, pct 0..99, 5 arrival patterns per epoch around the first qualifying block, 3 epochs"}
 			}
-			return map[string]any{"epoch_len": "1..4", "start": []int{0, 1, 5}, "pct": "0..99", "blocks": "all subsets of 3 epochs", "noise": "len<=3"}
+			return map[string]any{"epoch_len": "1..4", "start": []int{0, 1, 5}, "pct": "0..99", "blocks": "all subsets of 3 epochs", "noise": "len<=3",
+				"threshold_sweep": "epoch_len 5..60 and {100,128,300,360,720,1000,7200}, start 7, pct 0..99, 5 arrival patterns per epoch around the first qualifying block, 2 epochs"}
 		},
 	})
 }
